@@ -85,10 +85,14 @@ pub enum Ad {
     Cycle,
     Reversed,
     Iter,
+    /// zip / chain with an argument that yields key-value pairs (a map) or pairs from an adaptor
+    ZipMap,
+    ZipEnumerate,
+    ChainMap,
 }
 
 pub fn all_adaptors() -> Vec<Ad> {
-    let mut v = vec![Ad::Each, Ad::Keep, Ad::TakeWhile, Ad::Chain, Ad::Zip, Ad::Enumerate, Ad::Flatten, Ad::Intersperse, Ad::Cycle, Ad::Reversed, Ad::Iter];
+    let mut v = vec![Ad::Each, Ad::Keep, Ad::TakeWhile, Ad::Chain, Ad::Zip, Ad::Enumerate, Ad::Flatten, Ad::Intersperse, Ad::Cycle, Ad::Reversed, Ad::Iter, Ad::ZipMap, Ad::ZipEnumerate, Ad::ChainMap];
     for n in 0..4u8 {
         v.push(Ad::Skip(n));
         v.push(Ad::Take(n));
@@ -122,10 +126,18 @@ pub enum Cons {
     NextBackMix,
     CopyThenAdvance,
     ExhaustReuse,
+    /// peekable: peek, next, peek again, collect the rest
+    PeekForward,
+    /// peekable: peek_back, then consume forwards to the end
+    PeekBackThenForward,
+    /// peekable: peek, then consume backwards to the end
+    PeekThenBackward,
+    /// peekable: peek and peek_back interleaved with next / next_back
+    PeekMix,
 }
-pub const CONSUMERS: [Cons; 21] = [
+pub const CONSUMERS: [Cons; 25] = [
     Cons::ToList, Cons::ToTuple, Cons::Count, Cons::Sum, Cons::Product, Cons::Min, Cons::Max, Cons::MinMax, Cons::Fold, Cons::Find, Cons::Position, Cons::Any, Cons::All, Cons::Last, Cons::Consume, Cons::For, Cons::Unpack3, Cons::Next3,
-    Cons::NextBackMix, Cons::CopyThenAdvance, Cons::ExhaustReuse,
+    Cons::NextBackMix, Cons::CopyThenAdvance, Cons::ExhaustReuse, Cons::PeekForward, Cons::PeekBackThenForward, Cons::PeekThenBackward, Cons::PeekMix,
 ];
 
 #[derive(Clone, Debug, Serialize, Deserialize)]
@@ -191,6 +203,12 @@ fn bidirectional_source(k: SrcK) -> bool {
 fn other_values() -> Vec<MV> {
     vec![MV::Int(10), MV::Int(20)]
 }
+fn other_map_pairs() -> Vec<MV> {
+    vec![MV::Tup(vec![MV::Str("a".into()), MV::Int(10)]), MV::Tup(vec![MV::Str("b".into()), MV::Int(20)])]
+}
+fn other_enumerated() -> Vec<MV> {
+    vec![MV::Tup(vec![MV::Int(0), MV::Int(10)]), MV::Tup(vec![MV::Int(1), MV::Int(20)])]
+}
 
 #[derive(Debug)]
 pub enum ModelErr {
@@ -241,6 +259,18 @@ pub fn model_chain(src: SrcK, len: u8, chain: &[Ad]) -> Result<(Vec<MV>, bool), 
             }
             Ad::Zip => {
                 v = v.into_iter().zip(other_values()).map(|(a, b)| MV::Tup(vec![a, b])).collect();
+                bidi = false;
+            }
+            Ad::ZipMap => {
+                v = v.into_iter().zip(other_map_pairs()).map(|(a, b)| MV::Tup(vec![a, b])).collect();
+                bidi = false;
+            }
+            Ad::ZipEnumerate => {
+                v = v.into_iter().zip(other_enumerated()).map(|(a, b)| MV::Tup(vec![a, b])).collect();
+                bidi = false;
+            }
+            Ad::ChainMap => {
+                v.extend(other_map_pairs());
                 bidi = false;
             }
             Ad::Enumerate => {
@@ -412,6 +442,41 @@ pub fn model_consume(v: &[MV], bidi: bool, cons: Cons) -> Result<String, ModelEr
             }
             out.join(" ")
         }
+        Cons::PeekForward => {
+            let sh = |x: Option<&MV>| x.map(|x| show(x, false)).unwrap_or("null".into());
+            let rest: Vec<MV> = v.iter().skip(1).cloned().collect();
+            format!("{} {} {} {} {}", sh(v.first()), sh(v.first()), sh(v.first()), sh(v.get(1)), show(&MV::Tup(rest), false))
+        }
+        Cons::PeekBackThenForward => {
+            if !bidi {
+                return Err(ModelErr::Unjudged("peek_back on a non-bidirectional chain"));
+            }
+            let sh = |x: Option<&MV>| x.map(|x| show(x, false)).unwrap_or("null".into());
+            format!("{} {}", sh(v.last()), show(&MV::Tup(v.to_vec()), false))
+        }
+        Cons::PeekThenBackward => {
+            if !bidi {
+                return Err(ModelErr::Unjudged("reversed on a non-bidirectional chain"));
+            }
+            let sh = |x: Option<&MV>| x.map(|x| show(x, false)).unwrap_or("null".into());
+            let rev: Vec<MV> = v.iter().rev().cloned().collect();
+            format!("{} {}", sh(v.first()), show(&MV::Tup(rev), false))
+        }
+        Cons::PeekMix => {
+            if !bidi {
+                return Err(ModelErr::Unjudged("peek_back on a non-bidirectional chain"));
+            }
+            // peek, peek_back, next, peek_back, next_back, peek, rest
+            let mut d: std::collections::VecDeque<MV> = v.iter().cloned().collect();
+            let sh = |x: Option<&MV>| x.map(|x| show(x, false)).unwrap_or("null".into());
+            let mut out = vec![sh(d.front()), sh(d.back())];
+            out.push(sh(d.pop_front().as_ref()));
+            out.push(sh(d.back()));
+            out.push(sh(d.pop_back().as_ref()));
+            out.push(sh(d.front()));
+            out.push(show(&MV::Tup(d.into_iter().collect()), false));
+            out.join(" ")
+        }
         Cons::CopyThenAdvance if false => unreachable!(),
         Cons::CopyThenAdvance => {
             // advance once, copy, advance the copy twice, then collect the original
@@ -435,6 +500,9 @@ fn adaptor_text(ad: &Ad) -> String {
         Ad::Step(n) => format!(".step({n})"),
         Ad::Chain => ".chain((10, 20))".into(),
         Ad::Zip => ".zip((10, 20))".into(),
+        Ad::ZipMap => ".zip({a: 10, b: 20})".into(),
+        Ad::ZipEnumerate => ".zip((10, 20).enumerate())".into(),
+        Ad::ChainMap => ".chain({a: 10, b: 20})".into(),
         Ad::Enumerate => ".enumerate()".into(),
         Ad::Chunks(n) => format!(".chunks({n})"),
         Ad::Windows(n) => format!(".windows({n})"),
@@ -451,7 +519,7 @@ fn lookahead(chain: &[Ad]) -> usize {
         .iter()
         .map(|a| match a {
             Ad::Step(n) => (*n as usize).saturating_sub(1) + 1,
-            Ad::Intersperse | Ad::Zip | Ad::Chain => 1,
+            Ad::Intersperse | Ad::Zip | Ad::Chain | Ad::ZipMap | Ad::ZipEnumerate | Ad::ChainMap => 1,
             Ad::Windows(n) | Ad::Chunks(n) => *n as usize,
             Ad::Cycle => 64,
             Ad::Flatten => 1,
@@ -477,6 +545,9 @@ fn model_pulls(p: &Pipe) -> usize {
             Ad::Step(n) => Box::new(it.step_by((n as usize).max(1))),
             Ad::Chain => Box::new(it.chain(other_values())),
             Ad::Zip => Box::new(it.zip(other_values()).map(|(a, b)| MV::Tup(vec![a, b]))),
+            Ad::ZipMap => Box::new(it.zip(other_map_pairs()).map(|(a, b)| MV::Tup(vec![a, b]))),
+            Ad::ZipEnumerate => Box::new(it.zip(other_enumerated()).map(|(a, b)| MV::Tup(vec![a, b]))),
+            Ad::ChainMap => Box::new(it.chain(other_map_pairs())),
             Ad::Enumerate => Box::new(it.enumerate().map(|(i, x)| MV::Tup(vec![MV::Int(i as i64), x]))),
             _ => {
                 // eager adaptors in this estimate: everything is needed
@@ -554,6 +625,18 @@ pub fn pipe_script(p: &Pipe, k: usize) -> String {
         }
         Cons::NextBackMix => {
             s.push_str("  g = |o| if o == null then null else o.get()\n  na = g it.next()\n  nb = g it.next_back()\n  nc = g it.next()\n  nd = g it.next_back()\n  '{na} {nb} {nc} {nd}'\n");
+        }
+        Cons::PeekForward => {
+            s.push_str("  g = |o| if o == null then null else o.get()\n  pk = it.peekable()\n  pa = g pk.peek()\n  pb = g pk.peek()\n  pc = g pk.next()\n  pd = g pk.peek()\n  '{pa} {pb} {pc} {pd} {pk.to_tuple()}'\n");
+        }
+        Cons::PeekBackThenForward => {
+            s.push_str("  g = |o| if o == null then null else o.get()\n  pk = it.peekable()\n  pa = g pk.peek_back()\n  '{pa} {pk.to_tuple()}'\n");
+        }
+        Cons::PeekThenBackward => {
+            s.push_str("  g = |o| if o == null then null else o.get()\n  pk = it.peekable()\n  pa = g pk.peek()\n  '{pa} {pk.reversed().to_tuple()}'\n");
+        }
+        Cons::PeekMix => {
+            s.push_str("  g = |o| if o == null then null else o.get()\n  pk = it.peekable()\n  pa = g pk.peek()\n  pb = g pk.peek_back()\n  pc = g pk.next()\n  pd = g pk.peek_back()\n  pe = g pk.next_back()\n  pf = g pk.peek()\n  '{pa} {pb} {pc} {pd} {pe} {pf} {pk.to_tuple()}'\n");
         }
         Cons::CopyThenAdvance => {
             s.push_str("  it.next()\n  cp = koto.copy it\n  cp.next()\n  cp.next()\n  it.to_tuple()\n");
@@ -640,7 +723,7 @@ pub fn eval_batch(pipes: &[Pipe]) -> Vec<PipeResult> {
                 results.push(PipeResult { fail: Some(("pull-order".into(), format!("pulls are not p0, p1, ... each once: {pulls:?}\n{text}"))), judged: true });
                 continue;
             }
-            if expected.is_ok() && !matches!(p.cons, Cons::CopyThenAdvance | Cons::ExhaustReuse | Cons::NextBackMix) {
+            if expected.is_ok() && !matches!(p.cons, Cons::CopyThenAdvance | Cons::ExhaustReuse | Cons::NextBackMix | Cons::PeekForward | Cons::PeekBackThenForward | Cons::PeekThenBackward | Cons::PeekMix) {
                 // every request made after an inner adaptor has ended may pull once more (adaptors are
                 // not fused): allow one pull per request of the multi-request consumers and per skipped element
                 let requests = if matches!(p.cons, Cons::Unpack3 | Cons::Next3) { 3 + p.chain.iter().map(|a| if let Ad::Skip(n) = a { *n as usize } else { 0 }).sum::<usize>() } else { 0 };
@@ -694,7 +777,7 @@ fn run_batch(ctx: &mut Ctx, batch: &[Pipe], desc: Value) {
     let mut last = json!(null);
     for (p, r) in batch.iter().zip(results.into_iter()) {
         let cj = json!({"kind": "pipe", "pipe": serde_json::to_value(p).unwrap(), "script": pipe_script(p, 0)});
-        let mut ev = Eval::pass(p.chain.len() >= 2 || matches!(p.cons, Cons::ExhaustReuse | Cons::NextBackMix));
+        let mut ev = Eval::pass(p.chain.len() >= 2 || matches!(p.cons, Cons::ExhaustReuse | Cons::NextBackMix | Cons::PeekForward | Cons::PeekBackThenForward | Cons::PeekThenBackward | Cons::PeekMix));
         if !r.judged {
             ev.discard = true;
             ev.classes.push("unjudged");
